@@ -111,10 +111,14 @@ def decode_date(days_since_epoch: int | float | None) -> date | None:
     # Format and return the date string
     return decoded_date
 
-def encode_date(decoded_date: date) -> int:
+def encode_date(decoded_date: date | None, bit_length: int = 16) -> int:
     """
     Encodes a date into an integer representing the number of days since 1970-01-01 (UNIX epoch)
     """
+    if decoded_date is None:
+        # Set to "not available" value
+        return (1 << bit_length) - 1
+
     # Define the start date as 1970-01-01
     start_date = date(1970, 1, 1)
     
